@@ -7,6 +7,8 @@
 #include <list>
 #include <algorithm>
 #include <new>
+#include <cmath>
+#include <limits>
 #include "vharness.hpp"
 #include <frg/vector.hpp>
 #include <frg/small_vector.hpp>
@@ -20,19 +22,21 @@ namespace sq {
 struct Tracker {
 	bool on = false;                  // off while the harness itself observes the containers
 	std::vector<std::string> ev;
-	std::map<const char *, std::pair<int, size_t>> blocks;   // live allocator blocks: base -> (id, bytes)
+	struct Blk { int raw; size_t bytes; int inst; };          // raw = number of the allocation, inst = allocator instance
+	std::map<const char *, Blk> blocks;                       // live allocator blocks by base address
 	int next_id = 1;
+	int ninst = 4;                    // a block is named raw * ninst + instance (coq/Seq/SlotModel.v: enc)
 	struct Inl { const char *base; size_t bytes; int reg; };
 	std::vector<Inl> inl;             // inline storage of the small_vector registers
 	size_t esz = 1, inl_n = 0;
 	std::set<const void *> live;      // objects constructed by the container and not yet destroyed
-	void reset() { on = false; ev.clear(); blocks.clear(); next_id = 1; inl.clear(); esz = 1; inl_n = 0; live.clear(); }
+	void reset() { on = false; ev.clear(); blocks.clear(); next_id = 1; ninst = 4; inl.clear(); esz = 1; inl_n = 0; live.clear(); }
 	bool resolve(const void *p, int &b, size_t &slot) {
 		const char *c = (const char *)p;
 		auto it = blocks.upper_bound(c);
 		if(it != blocks.begin()) {
 			--it;
-			if(c < it->first + it->second.second) { b = it->second.first; slot = (c - it->first) / esz; return true; }
+			if(c < it->first + it->second.bytes) { b = it->second.raw * ninst + it->second.inst; slot = (c - it->first) / esz; return true; }
 		}
 		for(auto &r : inl)
 			if(c >= r.base && c < r.base + r.bytes) { b = 0; slot = r.reg * inl_n + (c - r.base) / esz; return true; }
@@ -61,18 +65,27 @@ struct Tracker {
 };
 inline Tracker T;
 
+// Stateful allocator handle: every instance accounts for the blocks it handed out (the storage itself comes from
+// vh::TrackAlloc's registry).  A release names the block as the releasing instance knows it.
 struct LogAlloc : vh::TrackAlloc {
+	int inst = 0;
+	LogAlloc() = default;
+	explicit LogAlloc(int i) : inst(i) { }
 	void *allocate(size_t n) {
 		void *p = vh::TrackAlloc::allocate(n);
-		int id = T.next_id++;
-		T.blocks[(const char *)p] = {id, n};
-		if(T.on) { char buf[48]; snprintf(buf, sizeof buf, "A%d:%zu", id, n); T.ev.push_back(buf); }
+		int raw = T.next_id++;
+		T.blocks[(const char *)p] = {raw, n, inst};
+		if(T.on) { char buf[48]; snprintf(buf, sizeof buf, "A%d:%zu", raw * T.ninst + inst, n); T.ev.push_back(buf); }
 		return p;
 	}
+	// returns the name under which this instance releases the block, -1 if the block is unknown
 	int forget(void *p) {
 		auto it = T.blocks.find((const char *)p);
 		if(it == T.blocks.end()) return -1;
-		int id = it->second.first; T.blocks.erase(it); return id;
+		if(it->second.inst != inst)
+			vh::oracle("bad-free", "foreign release: block %d handed out by allocator instance %d is released into instance %d, which never handed it out",
+				it->second.raw, it->second.inst, inst);
+		int id = it->second.raw * T.ninst + inst; T.blocks.erase(it); return id;
 	}
 	void deallocate(void *p, size_t n) {
 		if(p) { int id = forget(p); if(T.on) { char buf[48]; snprintf(buf, sizeof buf, "X%d:%zu", id, n); T.ev.push_back(buf); } }
@@ -108,7 +121,40 @@ struct Elem {
 using TVE = Elem<true>;
 using MOE = Elem<false>;
 
-template<class X> uint64_t val(const X &x) { if constexpr(std::is_same_v<X, uint64_t>) return x; else return x.get(); }
+// ---- trivially copyable element types whose operator== is not bytewise equality
+// double: code 0 = +0.0, 1 = -0.0, 2 = NaN, 3 = +inf, 4 = -inf, c >= 5 = (double)c
+inline double dbl_of(uint64_t c) {
+	switch(c) {
+	case 0: return 0.0; case 1: return -0.0; case 2: return std::numeric_limits<double>::quiet_NaN();
+	case 3: return std::numeric_limits<double>::infinity(); case 4: return -std::numeric_limits<double>::infinity();
+	default: return (double)c; }
+}
+inline uint64_t code_of(double d) {
+	if(std::isnan(d)) return 2;
+	if(std::isinf(d)) return d > 0 ? 3 : 4;
+	if(d == 0) return std::signbit(d) ? 1 : 0;
+	return (uint64_t)d;
+}
+// padded POD compared by key only: code = key * 4 + tag
+struct Pod {
+	uint8_t tag;
+	uint32_t key;
+	bool operator==(const Pod &o) const { return key == o.key; }
+};
+static_assert(std::is_trivially_copyable_v<Pod> && sizeof(Pod) == 8);
+
+template<class X> constexpr bool is_plain = std::is_same_v<X, double> || std::is_same_v<X, Pod>;
+template<class X> uint64_t val(const X &x) {
+	if constexpr(std::is_same_v<X, uint64_t>) return x;
+	else if constexpr(std::is_same_v<X, double>) return code_of(x);
+	else if constexpr(std::is_same_v<X, Pod>) return (uint64_t)x.key * 4 + x.tag;
+	else return x.get();
+}
+template<class X> X mk(uint64_t c) {
+	if constexpr(std::is_same_v<X, double>) return dbl_of(c);
+	else if constexpr(std::is_same_v<X, Pod>) { Pod p{}; p.tag = (uint8_t)(c % 4); p.key = (uint32_t)(c / 4); return p; }
+	else return X(c);
+}
 template<class X> constexpr bool copyable = std::is_copy_constructible_v<X>;
 
 // ---- container variables ("registers") in raw storage, so scripts can destroy and re-construct them
@@ -156,7 +202,7 @@ static void run_vec(const vh::Lines &ls) {
 	std::vector<uint64_t> ref[3];
 	{
 	Regs<C> R;
-	for(int i = 0; i < 3; i++) { new (R.at(i)) C(); R.alive[i] = true; }
+	for(int i = 0; i < 3; i++) { new (R.at(i)) C(LogAlloc(i)); R.alive[i] = true; }
 	auto dump = [&]() {
 		for(int k = 0; k < 3; k++) {
 			C &c = R[k];
@@ -179,8 +225,9 @@ static void run_vec(const vh::Lines &ls) {
 		T.on = true;
 		if(o == "push" || o == "pushm" || o == "emplace") {
 			int r = R_(t[1]); uint64_t x = vh::u64(t[2]);
-			if(o == "push") { if constexpr(copyable<E>) { E tmp(x); R[r].push(tmp); } else throw Stop{"badop"}; }
-			else if(o == "pushm") R[r].push(E(x));
+			if(o == "push") { if constexpr(copyable<E>) { E tmp = mk<E>(x); R[r].push(tmp); } else throw Stop{"badop"}; }
+			else if(o == "pushm") R[r].push(mk<E>(x));
+			else if constexpr(is_plain<E>) R[r].emplace_back(mk<E>(x));
 			else R[r].emplace_back(x);
 			ref[r].push_back(x);
 		} else if(o == "pop") {
@@ -197,7 +244,7 @@ static void run_vec(const vh::Lines &ls) {
 			R[r].resize(n); ref[r].resize(n);
 		} else if(o == "resizev") {
 			int r = R_(t[1]); size_t n = vh::u64(t[2]); uint64_t x = vh::u64(t[3]);
-			if constexpr(copyable<E>) { E tmp(x); R[r].resize(n, tmp); } else throw Stop{"badop"};
+			if constexpr(copyable<E>) { E tmp = mk<E>(x); R[r].resize(n, tmp); } else throw Stop{"badop"};
 			ref[r].resize(n, x);
 		} else if(o == "clear") {
 			int r = R_(t[1]); R[r].clear(); ref[r].clear();
@@ -216,7 +263,14 @@ static void run_vec(const vh::Lines &ls) {
 			T.on = false;
 			bool nb = !(R[r] != R[s]);
 			out = b ? "o b 1" : "o b 0";
-			if(b != (ref[r] == ref[s]) || nb != b) vh::oracle("refseq", "vector: operator==/!= disagree with the reference");
+			bool want;
+			if constexpr(is_plain<E>) {     // std::vector of the same element type: the element type's own operator==
+				std::vector<E> x, y;
+				for(auto c : ref[r]) x.push_back(mk<E>(c));
+				for(auto c : ref[s]) y.push_back(mk<E>(c));
+				want = x == y;
+			} else want = ref[r] == ref[s];
+			if(b != want || nb != b) vh::oracle("refseq", "vector: operator== = %d, operator!= = %d, but the reference sequences compare %s", (int)b, (int)!nb, want ? "equal" : "unequal");
 		} else if(o == "assign") {
 			int r = R_(t[1]), s = R_(t[2]);
 			if constexpr(copyable<E>) R[r] = R[s]; else throw Stop{"badop"};
@@ -267,7 +321,7 @@ static void run_sv(const vh::Lines &ls) {
 	{
 	Regs<C> R;
 	for(int i = 0; i < 3; i++) {
-		new (R.at(i)) C(); R.alive[i] = true;
+		new (R.at(i)) C(LogAlloc(i)); R.alive[i] = true;
 		T.inl.push_back({(const char *)&R[i]._array, N * sizeof(E), i});
 	}
 	auto dump = [&]() {
@@ -366,7 +420,7 @@ static void run_dyn(const vh::Lines &ls) {
 	std::vector<uint64_t> ref[3];
 	{
 	Regs<C> R;
-	for(int i = 0; i < 3; i++) { new (R.at(i)) C(); R.alive[i] = true; }
+	for(int i = 0; i < 3; i++) { new (R.at(i)) C(LogAlloc(i)); R.alive[i] = true; }
 	auto dump = [&]() {
 		for(int k = 0; k < 3; k++) {
 			C &c = R[k];
@@ -388,11 +442,11 @@ static void run_dyn(const vh::Lines &ls) {
 		T.on = true;
 		if(o == "make") {
 			int r = R_(t[1]); size_t n = vh::u64(t[2]);
-			R[r].~C(); R.alive[r] = false; new (R.at(r)) C(n); R.alive[r] = true;
+			LogAlloc a = R[r].allocator_; R[r].~C(); R.alive[r] = false; new (R.at(r)) C(n, a); R.alive[r] = true;
 			ref[r].assign(n, 0);
 		} else if(o == "default") {
 			int r = R_(t[1]);
-			R[r].~C(); R.alive[r] = false; new (R.at(r)) C(); R.alive[r] = true;
+			LogAlloc a = R[r].allocator_; R[r].~C(); R.alive[r] = false; new (R.at(r)) C(a); R.alive[r] = true;
 			ref[r].clear();
 		} else if(o == "set") {
 			int r = R_(t[1]); size_t i = vh::u64(t[2]); uint64_t x = vh::u64(t[3]);
@@ -516,6 +570,7 @@ template<class E>
 static void run_list(const vh::Lines &ls) {
 	using C = frg::list<E, LogAlloc>;
 	T.esz = sizeof(typename C::item);
+	T.ninst = 1;                      // a single list on instance 0: blocks keep their allocation numbers
 	std::list<uint64_t> ref;
 	{
 	Regs<C, 1> R;
@@ -682,11 +737,11 @@ static void body(const vh::Lines &ls) {
 	auto t = vh::split(ls[0]);
 	std::string cont = t.size() > 1 ? t[1] : "vec", elem = t.size() > 2 ? t[2] : "int";
 	int n = t.size() > 3 ? atoi(t[3].c_str()) : 4;
-	size_t es = elem == "int" ? sizeof(uint64_t) : sizeof(TVE);
+	size_t es = (elem == "int" || elem == "dbl" || elem == "pod") ? sizeof(uint64_t) : sizeof(TVE);
 	if(cont == "list") es += sizeof(frg::default_list_hook<int>);
 	printf("hdr %s %s esz=%zu\n", cont.c_str(), elem.c_str(), es);
 	try {
-		if(cont == "vec") { if(elem == "int") run_vec<uint64_t>(ls); else if(elem == "tv") run_vec<TVE>(ls); else run_vec<MOE>(ls); }
+		if(cont == "vec") { if(elem == "int") run_vec<uint64_t>(ls); else if(elem == "dbl") run_vec<double>(ls); else if(elem == "pod") run_vec<Pod>(ls); else if(elem == "tv") run_vec<TVE>(ls); else run_vec<MOE>(ls); }
 		else if(cont == "sv") {
 			if(n == 2) { if(elem == "int") run_sv<uint64_t, 2>(ls); else if(elem == "tv") run_sv<TVE, 2>(ls); else run_sv<MOE, 2>(ls); }
 			else { if(elem == "int") run_sv<uint64_t, 4>(ls); else if(elem == "tv") run_sv<TVE, 4>(ls); else run_sv<MOE, 4>(ls); }
